@@ -87,6 +87,10 @@ func main() {
 		cmdWhy(os.Args[2:])
 	case "dump":
 		cmdDump(os.Args[2:])
+	case "selftest":
+		os.Exit(cmdSelftest(os.Args[2:]))
+	case "describe":
+		os.Exit(cmdDescribe(os.Args[2:]))
 	case "list":
 		for _, p := range props.All() {
 			fmt.Println(p.ID, p.Title)
@@ -426,6 +430,48 @@ func checkOne(repo string, pr *props.Property, tier string) int {
 			"exhaustive":          false,
 		},
 	}
+	if tier == "thorough" && os.Getenv("CZ_NOMUTANTS") == "" {
+		// Sensitivity of this property's rules: re-run the analysis on scratch copies of the
+		// current tree carrying one known-bad change each (fix: commits reversed, seeded
+		// defects).  This is evidence about the checker; it never produces a VIOLATION line.
+		if ms, err := loadMutants(vd); err == nil {
+			var sel []mutant
+			for _, m := range ms {
+				if contains(m.Expect, pr.ID) {
+					sel = append(sel, m)
+				}
+			}
+			rs := runMutants(repo, sel, mutantCacheDir(repo))
+			killed, skipped := 0, 0
+			var rows []any
+			for _, r := range rs {
+				st := "missed"
+				switch {
+				case !r.Applied:
+					st = "skipped: " + r.Error
+					skipped++
+				case r.Error != "":
+					st = "error: " + r.Error
+				case r.Killed:
+					st = "killed"
+					killed++
+				}
+				if st == "missed" || strings.HasPrefix(st, "error") {
+					fmt.Printf("SELFTEST-MISS property=%s mutant=%s is not reported by this property's rules (%s)\n", pr.ID, r.Mutant.Name, st)
+				}
+				rows = append(rows, map[string]any{"mutant": r.Mutant.Name, "config": r.Mutant.Config, "result": st, "reported_by": r.Flagged})
+			}
+			cov := ev["coverage"].(map[string]any)
+			cov["mutants_total"] = len(rs)
+			cov["mutants_killed"] = killed
+			cov["mutants_skipped"] = skipped
+			cov["mutants"] = rows
+			cov["mutants_rule"] = "each mutant is a source change known to break this property (a fix: commit reversed, or a defect seeded by an independent agent and confirmed against the real code); the same static analysis is run on a scratch copy of the current tree with the change applied; killed = a rule of this property reports a new violation"
+			fmt.Printf("%s selftest: %d/%d known-bad changes reported (%d not applicable to this tree)\n", pr.ID, killed, len(rs)-skipped, skipped)
+		} else {
+			fmt.Println("selftest: mutants unavailable:", err)
+		}
+	}
 	if err := an.WriteJSON(filepath.Join(vd, "evidence", pr.ID+".json"), ev); err != nil {
 		fmt.Println("ERROR: evidence:", err)
 		return 2
@@ -546,4 +592,100 @@ func cmdWhy(args []string) {
 	for _, l := range p.WhyWrites(fn, args[1], args[2], args[3]) {
 		fmt.Println(l)
 	}
+}
+
+// cmdDescribe writes the rule inventory (markdown) derived from an actual run: per property the
+// explanation, the clauses not decided, and per rule the number of obligations per status with examples.
+func cmdDescribe(args []string) int {
+	fs := flag.NewFlagSet("describe", flag.ExitOnError)
+	repo := fs.String("repo", "/repo", "target checkout")
+	tier := fs.String("tier", "thorough", "quick|thorough")
+	out := fs.String("o", "", "output file (default stdout)")
+	fs.Parse(args)
+	res, th, err := results(*repo, *tier)
+	if err != nil {
+		fmt.Println("ERROR:", err)
+		return 2
+	}
+	known, _ := an.LoadKnown(filepath.Join(verifDir(), "known_findings.json"))
+	var b strings.Builder
+	fmt.Fprintf(&b, "# Rule inventory (generated by `czcheck describe -tier %s`)\n\n", *tier)
+	fmt.Fprintf(&b, "Tree sha256 `%s`; configurations:", th[:16])
+	for _, r := range res {
+		fmt.Fprintf(&b, " `%s`", r.Config)
+	}
+	b.WriteString(".\nCounts are obligations over all configurations; *constructs* are distinct (rule, construct) pairs.\n\n")
+	for _, pr := range props.All() {
+		fmt.Fprintf(&b, "## %s — %s\n\n%s\n\nNot decided:\n", pr.ID, pr.Title, pr.Explanation)
+		for _, n := range pr.NotDecided {
+			fmt.Fprintf(&b, "* %s\n", n)
+		}
+		if len(pr.Assumptions) > 0 {
+			b.WriteString("\nAssumptions:\n")
+			for _, n := range pr.Assumptions {
+				fmt.Fprintf(&b, "* %s\n", n)
+			}
+		}
+		type agg struct {
+			n, dis, viol, kn, info int
+			keys                   map[string]bool
+			ex                     []string
+		}
+		rules := map[string]*agg{}
+		var names []string
+		for _, r := range res {
+			for _, o := range r.Obs {
+				if o.Prop != pr.ID {
+					continue
+				}
+				a := rules[o.Rule]
+				if a == nil {
+					a = &agg{keys: map[string]bool{}}
+					rules[o.Rule] = a
+					names = append(names, o.Rule)
+				}
+				if o.Status == an.Info {
+					a.info++
+					continue
+				}
+				a.n++
+				switch o.Status {
+				case an.Discharged:
+					a.dis++
+				case an.Violated:
+					if known.Match(o) >= 0 {
+						a.kn++
+					} else {
+						a.viol++
+					}
+				}
+				if !a.keys[o.Key] {
+					a.keys[o.Key] = true
+					if len(a.ex) < 4 && !strings.HasPrefix(o.Key, "instances ") {
+						a.ex = append(a.ex, o.Key)
+					}
+				}
+			}
+		}
+		sort.Slice(names, func(i, j int) bool {
+			ni, _ := strconv.Atoi(strings.TrimLeft(names[i], "R"))
+			nj, _ := strconv.Atoi(strings.TrimLeft(names[j], "R"))
+			return ni < nj
+		})
+		b.WriteString("\n| rule | constructs | obligations | discharged | known findings | violated | notes | examples |\n|---|---|---|---|---|---|---|---|\n")
+		for _, n := range names {
+			a := rules[n]
+			fmt.Fprintf(&b, "| %s | %d | %d | %d | %d | %d | %d | %s |\n", n, len(a.keys), a.n, a.dis, a.kn, a.viol, a.info, strings.ReplaceAll(strings.Join(a.ex, "; "), "|", "\\|"))
+		}
+		b.WriteString("\n")
+	}
+	if *out == "" {
+		fmt.Print(b.String())
+		return 0
+	}
+	if err := os.WriteFile(*out, []byte(b.String()), 0o644); err != nil {
+		fmt.Println("ERROR:", err)
+		return 2
+	}
+	return 0
 }
